@@ -605,11 +605,9 @@ def _parse_phase_numpydoc_and_google(
             name, _, typ = scan[0].partition(":")
             if not name:
                 return None
-            cur = {"name": name.rstrip()}
-            if typ:
-                cur.update(
-                    {"typ": typ.lstrip(), "doc": "\n".join(map(str.lstrip, scan[1:]))}
-                )
+            cur = {"name": name.rstrip(), "doc": "\n".join(map(str.lstrip, scan[1:]))}
+            if typ.strip():
+                cur["typ"] = typ.strip()
             # elif name.endswith("kwargs"): cur["typ"] = "dict"
             return cur
 
